@@ -15,7 +15,8 @@
   (c16 h.set h k v) (c16 h.setattr h k v) (c16 h.del h k) (c16 h.delattr h k)       in place; reply: the target afterwards
   (c16 h.get h k) (c16 h.getattr h k) (c16 h.gett h (T k*)) (c16 h.keys h)           reads
   (c16 h.dump)                                                                       reply: `(H d0 d1 …)`, the whole heap
-  `d.add` / `h.add` / `h.addh` are class-aware (`DA.addC`): for class 1 (`Dict`) they are C15's `tree_update`.
+  `d.add` / `h.add` / `h.addh` are class-aware (`DA.addC`): for class 1 (`Dict`) and 4 (a subclass of `Dict`) they are C15's `tree_update`.
+  `d.sub d (T k*)` is the tuple-PATH form (`DA.subPath`); `d.get / d.gett / d.getl` resolve an absent dotted key part by part (`DA.getKeyD`).
   `h.getattr` of a name that is an attribute of the class replies `ok method`; `h.setattr` of a name starting with `_` leaves
   the mapping as it is (a private instance attribute, not tracked by the model).
 
@@ -26,6 +27,7 @@ import PygModel.USet
 import PygModel.DictCall
 import PygModel.DAHeap
 import PygModel.DictAdd
+import PygModel.DADotted
 
 namespace Pyg.USetDriver
 open Pyg
@@ -170,11 +172,13 @@ def handle (s : St) (op : String) (args : List Sexp) : Option (St × String) := 
       let d ← daOf d
       match k with
       | .node (.atom "L" :: _) => pure1 ("ok " ++ daRender (DA.subKeys d (← strsOf k)))
+      | .node (.atom "T" :: _) => pure1 (resStr (DA.subPath d (← strsOf k)) daRender)      -- a tuple is a PATH into nested mappings
       | _ => pure1 ("ok " ++ daRender (DA.subKey d (← strOf k)))
   | "d.and", [d, k] => pure1 ("ok " ++ daRender (DA.andKeys (← daOf d) (← strsOf k)))
-  | "d.getl", [d, k] => pure1 (resStr (DA.getList (← daOf d) (← strsOf k)) daRender)
-  | "d.gett", [d, k] => pure1 (resStr (DA.getTuple (← daOf d) (← strsOf k)) fun vs => (Val.list vs).render)
-  | "d.get", [d, k] => pure1 (resStr (DA.getKey (← daOf d) (← strOf k)) Val.render)
+  -- the stateless reads follow the code's dotted fallback for absent keys (`DA.getKeyD`); on dot-free keys they are `DA.getList/getTuple/getKey`
+  | "d.getl", [d, k] => pure1 (resStr (DA.getListD (← daOf d) (← strsOf k)) daRender)
+  | "d.gett", [d, k] => pure1 (resStr (DA.getTupleD (← daOf d) (← strsOf k)) fun vs => (Val.list vs).render)
+  | "d.get", [d, k] => pure1 (resStr (DA.getKeyD (← daOf d) (← strOf k)) Val.render)
   | "d.add", [d, o] => pure1 (resStr (DA.addC (← daOf d) (← daOf o).items) daRender)
   | "d.relabel", [d, m] =>
       let m ← (← daOf m).items.mapM fun (k, v) => match v with
